@@ -966,6 +966,60 @@ theorem foldl_ownStep_plain (ms : List Msg) (d : Dir) (st : List (Option Dir))
     simp only [List.foldl_cons, h1]
     exact ih _ (fun x hx => hp x (List.mem_cons_of_mem _ hx))
 
+theorem plain_fileOf {m : Msg} (hp : m.plain = true) : ∃ f data, fileOf m = some (f, data) := by
+  cases m <;> simp [Msg.plain] at hp <;> exact ⟨_, _, rfl⟩
+
+theorem obs_head {s : Server} {sock : Nat} {d : Dir} {st : List (Option Dir)}
+    (h : obs s sock = some d :: st) :
+    ∃ c, findClient s sock = some c ∧ aget s.fs c.dir = some d := by
+  unfold obs at h
+  unfold findClient
+  generalize s.clients = l at h
+  induction l with
+  | nil => simp at h
+  | cons x r ih =>
+    by_cases hx : (x.sock == sock) = true
+    · simp only [List.filter_cons, hx, ↓reduceIte, List.map_cons, List.cons.injEq] at h
+      exact ⟨x, by simp [List.find?_cons, hx], h.1⟩
+    · have hx' : (x.sock == sock) = false := by simpa using hx
+      simp only [List.filter_cons, hx'] at h
+      obtain ⟨c, hc, hd⟩ := ih h
+      exact ⟨c, by simp [List.find?_cons, hx', hc], hd⟩
+
+theorem plain_step (fixed : Bool) (s : Server) (sock : Nat) (m : Msg) (d : Dir)
+    (st : List (Option Dir)) (D : DistinctDirs s.clients) (hp : m.plain = true)
+    (ho : obs s sock = some d :: st) :
+    ∃ s', applyMsg fixed s sock m = some s' ∧ DistinctDirs s'.clients ∧
+      obs s' sock = some (dirStep d m) :: st := by
+  obtain ⟨f, data, hf⟩ := plain_fileOf hp
+  obtain ⟨c, hc, hd⟩ := obs_head ho
+  have happ : applyMsg fixed s sock m =
+      some { s with fs := aset s.fs c.dir (d.append f data) } := by
+    rw [applyMsg_file hf]; simp [hc, writeClientFile, hd]
+  obtain ⟨D', _, hown⟩ := applyMsg_obs_file fixed s _ sock m f data hf D happ
+  refine ⟨_, happ, D', ?_⟩
+  rw [hown, ho, ownStep_file hf]
+  simp [dirStep, hf]
+
+theorem runConn_plain (fixed : Bool) (ms : List Msg) (s : Server) (sock : Nat) (d : Dir)
+    (st : List (Option Dir)) (D : DistinctDirs s.clients) (hp : ∀ m ∈ ms, m.plain = true)
+    (ho : obs s sock = some d :: st) :
+    ∃ s', runConn fixed s sock ms = some s' ∧ obs s' sock = some (ms.foldl dirStep d) :: st := by
+  induction ms generalizing s d with
+  | nil => exact ⟨s, rfl, ho⟩
+  | cons m ms ih =>
+    have hm := hp m (List.mem_cons_self ..)
+    obtain ⟨s1, h1, D1, o1⟩ := plain_step fixed s sock m d st D hm ho
+    obtain ⟨s2, h2, o2⟩ := ih s1 (dirStep d m) D1 (fun x hx => hp x (List.mem_cons_of_mem _ hx)) o1
+    have hne : m ≠ .end_ := by
+      intro e; subst e; simp [Msg.plain] at hm
+    exact ⟨s2, by simp [runConn, h1, hne, h2], by simpa using o2⟩
+
+theorem applyMsg_dirName_init (fixed : Bool) (sock : Nat) (n : Bytes) :
+    applyMsg fixed Server.init sock (.dirName n) =
+      some { clients := [{ sock := sock, dir := n }], fs := createDir [] n } := by
+  cases fixed <;> simp [applyMsg, Server.init, pickName, inUse, candName]
+
 /-! ### interleavings -/
 
 /-- merge two event lists; `true` takes from the first -/
